@@ -97,6 +97,8 @@ type Driver struct {
 	nd   int // next data id
 	nc   int // next commit id
 	Stop string
+
+	everBound map[string][]string // did -> accounts seen bound to it at some time
 }
 
 // Profile holds event weights and value pools for one family of properties.
@@ -130,6 +132,18 @@ func (d *Driver) pickI(xs []int64) int64  { return xs[d.R.Intn(len(xs))] }
 func (d *Driver) do(e Event) Outcome {
 	o, post := d.C.Step(d.T, e)
 	d.St = post
+	for _, b := range post.Bindings {
+		if d.everBound == nil {
+			d.everBound = map[string][]string{}
+		}
+		seen := false
+		for _, a := range d.everBound[b.Did] {
+			seen = seen || a == b.Acc
+		}
+		if !seen {
+			d.everBound[b.Did] = append(d.everBound[b.Did], b.Acc)
+		}
+	}
 	if o.Result == "PANIC" || o.Result == "HANG" {
 		d.Stop = o.Result
 	}
@@ -366,6 +380,10 @@ func (d *Driver) nextRaw() Event {
 				// let the owner's own account submit: for a sid did's bound account the order is only recorded (pending) and the
 				// gateway has to declare itself Ready; for key dids this is the error path
 				e.Creator = d.P.PayAcc[owner]
+				if sidOwner && d.R.Intn(2) == 0 {
+					// ... or one of the accounts that are, or once were, bound to the did as well
+					e.Creator = d.pick([]string{"a05", "a06", "a11", "a12"})
+				}
 			}
 			if d.R.Intn(4) == 0 {
 				others := d.ownerDids()
@@ -577,6 +595,28 @@ func (d *Driver) nextRaw() Event {
 				amt = x.Shares / 2
 			}
 			return Event{Kind: "Redelegate", Creator: x.D, Val: x.V, Val2: dst, Amount: amt}
+		case "ExAccountStore":
+			// an account that is - or was, before a key rotation dropped it - bound to a model-owning sid did submits an
+			// owner-signed update itself (no gateway involved): only a currently bound account may
+			var cands []PMeta
+			for _, m := range d.St.Metas {
+				if _, ok := d.P.Sids[m.Owner]; ok && m.Status == 4 {
+					cands = append(cands, m)
+				}
+			}
+			if len(cands) == 0 {
+				continue
+			}
+			m := cands[d.R.Intn(len(cands))]
+			d.nc++
+			newc := fmt.Sprintf("c%d", d.nc)
+			gw := d.pick(d.P.Gateways)
+			who := d.pick([]string{"a05", "a06", "a11", "a12"})
+			if eb := d.everBound[m.Owner]; len(eb) > 1 && d.R.Intn(4) != 0 {
+				who = d.pick(eb[1:]) // accounts bound to this did at some time (other than its first, the payment account)
+			}
+			return Event{Kind: "Store", Creator: who, Provider: gw, Gw: gw, Owner: m.Owner, Signer: m.Owner,
+				Data: m.Data, Commit: m.Commit + "|" + newc, Op: 1, Dur: d.pickI(d.P.Durs), Replica: 1, Timeout: d.pickI(d.P.Timeouts), Size: d.pickI(d.P.Sizes), Alias: m.Alias}
 		case "SidBind":
 			// one more account for a model-owning sid DID (submitted by an account already bound to it)
 			sid := d.pick(d.sidNames())
